@@ -530,6 +530,7 @@ type genCfg struct {
 	maxDepth  int
 	natives   bool
 	committee bool
+	oldForks  bool // the chain runs with only older hardforks: no arguments that newer ones introduced
 }
 
 var (
@@ -715,6 +716,9 @@ func (g *gen) native(cur, depth int, inCallback bool) (step, bool) {
 			s.N = 50000 + r.Intn(100000)
 		case 2:
 			s.Y = []int{0x20, 0x21, 0x22}[r.Intn(3)]
+			if g.cfg.oldForks {
+				s.Y = []int{0x20, 0x21}[r.Intn(2)] // NotaryAssisted (0x22) is not a known attribute before Echidna
+			}
 			s.N = r.Intn(100000)
 		case 3:
 			s.N = (1 + r.Intn(9)) * 1_0000_0000
